@@ -45,6 +45,12 @@ def synthetic(rng, infeasible=False):
         l[j], u[j] = [(0.7, 0.7), (0.2, 0.6), (0.5, 0.5)][int(rng.integers(3))]
         frac_fixed = True
     x0 = np.round(rng.uniform(l, u), 2)
+    big = []
+    if not infeasible and rng.random() < 0.12 and (~isb).any():
+        # quantities in small units (kW, W): a large value inside a narrow but material band, the upper part of which is needed
+        for j in [int(q) for q in rng.permutation(np.where(~isb)[0])[:int(rng.integers(1, 3))]]:
+            M = float(gen.pick(rng, [1e5, 4e5])); dlt = float(gen.pick(rng, [2., 3.]))
+            l[j] = M; u[j] = M + dlt; x0[j] = M + np.round(0.7 * dlt, 1); big.append(j)
     for j in np.where(isb)[0]:
         cand = [v for v in (0., 1.) if l[j] <= v <= u[j]]
         x0[j] = cand[int(rng.integers(len(cand)))] if cand else l[j]
@@ -58,6 +64,10 @@ def synthetic(rng, infeasible=False):
     for i, t in enumerate(ct):
         slack = float(np.round(rng.choice([0., 0., 0.5, 2.]), 2))
         b[i] = ax[i] + slack if t == 'U' else (ax[i] - slack if t == 'L' else ax[i])
+    for j in big:
+        # ... needed by a restriction on that variable alone
+        Ad = np.asarray(A.todense()); row_ = np.zeros((1, n)); row_[0, j] = 1.
+        A = sp.lil_matrix(np.vstack([Ad, row_])); b = np.append(b, x0[j]); ct += 'L'
     empty_row = None
     if not mip and rng.random() < 0.12:
         # a row WITHOUT any entry (a restriction whose variables are all outside the horizon): harmless if its right-hand side admits 0, otherwise
@@ -108,7 +118,7 @@ def synthetic(rng, infeasible=False):
         mp = mp.drop(columns=['bool'])
     op = OptimProblem(c=c, l=l.astype(float), u=u.astype(float), A=A, b=b, cType=ct, mapping=mp)
     desc = {'c': c.tolist(), 'l': l.tolist(), 'u': u.tolist(), 'A': np.asarray(A.todense()).round(3).tolist(), 'b': np.round(b, 4).tolist(),
-            'cType': ct, 'bool': np.where(isb)[0].tolist(), 'map_index': [int(i) for i in mp.index], 'boolean_fixed_to_fraction': frac_fixed, 'one_sided_infinite_bounds': one_sided, 'empty_row': empty_row, 'all_fixed': all_fixed}
+            'cType': ct, 'bool': np.where(isb)[0].tolist(), 'map_index': [int(i) for i in mp.index], 'boolean_fixed_to_fraction': frac_fixed, 'one_sided_infinite_bounds': one_sided, 'empty_row': empty_row, 'all_fixed': all_fixed, 'large_values_in_narrow_band': big}
     return op, desc, mip
 
 
